@@ -528,8 +528,12 @@ nodesLoop:
 						tcase.setValue(nil)
 					}
 					if tcase.IsConstant() && tcase.Type.Kind() != reflect.Bool {
-						// Check for duplicates.
-						value := tc.typedValue(tcase, tcase.Type)
+						// Check for duplicates. Two constants are duplicates
+						// if they have identical types and equal values: with
+						// a tag of interface type, 1 and T(1) are different
+						// cases even if they are represented by the same Go
+						// value.
+						value := [2]any{tcase.Type, tc.typedValue(tcase, tcase.Type)}
 						if pos, ok := positionOf[value]; ok {
 							panic(tc.errorf(cas, "duplicate case %v in switch\n\tprevious case at %s", ex, pos))
 						}
